@@ -109,10 +109,32 @@ func (s *SessionStore) setSessionCookie(rw http.ResponseWriter, req *http.Reques
 	if err != nil {
 		return err
 	}
+	written := make(map[string]struct{}, len(cookies))
 	for _, c := range cookies {
 		http.SetCookie(rw, c)
+		written[c.Name] = struct{}{}
 	}
+	s.clearStaleCookies(rw, req, written)
 	return nil
+}
+
+// clearStaleCookies expires the session cookies presented with the request
+// that the session being saved does not overwrite. Without this, a browser
+// keeps the cookies of an earlier save of a different size (an unsplit cookie
+// next to new split cookies, or the tail of a longer split cookie) and
+// presents them together with the new ones on the next request.
+func (s *SessionStore) clearStaleCookies(rw http.ResponseWriter, req *http.Request, written map[string]struct{}) {
+	// matches CookieName, CookieName_<number>
+	var cookieNameRegex = regexp.MustCompile(fmt.Sprintf("^%s(_\\d+)?$", s.Cookie.Name))
+
+	for _, c := range req.Cookies() {
+		if _, ok := written[c.Name]; ok {
+			continue
+		}
+		if cookieNameRegex.MatchString(c.Name) {
+			http.SetCookie(rw, s.makeCookie(req, c.Name, "", time.Hour*-1))
+		}
+	}
 }
 
 // makeSessionCookie creates an http.Cookie containing the authenticated user's
